@@ -218,6 +218,15 @@ BASES = [
         '1040.state': 'NC', 'nc_d-400.county': 'Wake', 'nc_d-400.nc_residents': 'yes', 'nc_d-400.try_itemizing': 'yes',
         '1040.number_1098': '1', '1098:0.box_1': '12750', 'nc_d-400.no_consumer_use_tax': 'yes',
     }), per_year={2021: {'1098:0.box_1': '10750'}}),
+    # two-digit copy numbers (w-2:10, 1099-int:11): natural sort, instance parsing, Schedule B rows 11 and 12
+    Base('B21-twelve-copies', ['1040'], dict(
+        [('1040.number_w-2', '12'), ('1040.number_1099-int', '12')]
+        + [(f'w-2:{n}.box_1', f'{4000 + n * 137.25:.2f}') for n in range(12)]
+        + [(f'w-2:{n}.box_2', str(300 + n)) for n in range(12)]
+        + [(f'w-2:{n}.box_5', f'{4000 + n * 137.25:.2f}') for n in range(12)]
+        + [(f'1099-int:{n}.box_1', str(150 + 10 * n)) for n in range(12)]
+        + [(f'1099-int:{n}.payer', f'Bank {n}') for n in range(12)]
+        + [('1099-int:11.box_4', '12')])),
     Base('B7-dense', ['1040'], {
         '1040.number_w-2': '2', 'w-2:1.belongs_to': 'spouse', '1040.filing_status': 'MarriedFilingJointly',
         '1040.number_1099-int': '1', '1040.number_1099-div': '1', '1040.number_1099-g': '1', '1040.number_1098': '1',
